@@ -32,19 +32,28 @@ type Case struct {
 	EOFWith bool       `json:"eof_with_data"` // the reader returns its last data together with io.EOF
 	Delays  []int      `json:"writer_delays_us"`
 	Procs   int        `json:"gomaxprocs"`
+	// IdleBurstAt > 0: from that reader call on, IdleBurstLen consecutive calls return (0, nil) (a polled
+	// line that stays silent), then the data goes on.
+	IdleBurstAt  int `json:"idle_burst_at_call"`
+	IdleBurstLen int `json:"idle_burst_len"`
 }
 
 type chunkReader struct {
-	data    []byte
-	pos     int
-	chunks  []int
-	call    int
-	eofWith bool
+	data                     []byte
+	pos                      int
+	chunks                   []int
+	call                     int
+	eofWith                  bool
+	burstAt, burstLen, reads int
 }
 
 func (r *chunkReader) Read(p []byte) (int, error) {
 	if r.pos >= len(r.data) {
 		return 0, io.EOF
+	}
+	r.reads++
+	if r.burstAt > 0 && r.reads >= r.burstAt && r.reads < r.burstAt+r.burstLen {
+		return 0, nil
 	}
 	n := len(p)
 	if len(r.chunks) > 0 {
@@ -86,7 +95,7 @@ func check(c Case, o *stats.Obs) error {
 	}
 	done := make(chan struct{})
 	go func() {
-		rtcmfilter.HandleMessages(drive.StartTime, &chunkReader{data: input, chunks: c.Chunks, eofWith: c.EOFWith}, w, cfg)
+		rtcmfilter.HandleMessages(drive.StartTime, &chunkReader{data: input, chunks: c.Chunks, eofWith: c.EOFWith, burstAt: c.IdleBurstAt, burstLen: c.IdleBurstLen}, w, cfg)
 		close(done)
 	}()
 	select {
@@ -154,6 +163,10 @@ func gen1(t *rapid.T) Case {
 		c.Delays = append(c.Delays, rapid.SampledFrom([]int{0, 20, 200}).Draw(t, "delay"))
 	}
 	c.Procs = rapid.SampledFrom([]int{0, 0, 1, 4, 16}).Draw(t, "procs")
+	if rapid.IntRange(0, 5).Draw(t, "idleBurst") == 3 {
+		c.IdleBurstAt = rapid.IntRange(1, 12).Draw(t, "idleBurstAt")
+		c.IdleBurstLen = rapid.SampledFrom([]int{99, 100, 101, 150, 400}).Draw(t, "idleBurstLen")
+	}
 	return c
 }
 
